@@ -816,3 +816,24 @@ func firstDiff(got, want []string, impl, wantAll string) string {
 	}
 	return "end state differs: got " + clip(impl[:strings.IndexByte(impl, '#')], 80) + " want " + clip(wantAll[:strings.IndexByte(wantAll, '#')], 80)
 }
+
+// collectTx runs the real parser and keeps the delivered transactions themselves.
+func collectTx(h *hist, packets [][]byte) []*gobinlog.Transaction {
+	m := &tblMapper{tables: h.tables}
+	s, _ := gobinlog.NewStreamer("unused", 7, m)
+	s.SetBinlogPosition(gobinlog.Position{Filename: firstFile, Offset: 4})
+	ch := make(chan replication.BinlogEvent, len(packets))
+	for _, p := range packets {
+		ch <- replication.NewMysql56BinlogEvent(exact(p))
+	}
+	close(ch)
+	var out []*gobinlog.Transaction
+	func() {
+		defer func() { recover() }()
+		s.VerifParseEvents(context.Background(), ch, func(t *gobinlog.Transaction) error {
+			out = append(out, t)
+			return nil
+		})
+	}()
+	return out
+}
